@@ -122,8 +122,11 @@ Fixpoint client_loop (cms : list meth) (replies : list reply) (avail : Z) (ran :
            if r =? 0 then LErr ran                 (* server rejected all remaining methods *)
            else match of_bit r with
                 | None => client_loop cms rest (Z.land avail (Z.lnot r)) ran
-                | Some mc =>
-                    if negb (mem mc cms) || (Z.land r avail =? 0) then LErr ran   (* not offered *)
+                | Some _ =>
+                  match offered_under cms r with
+                  | None => LErr ran                                               (* not offered *)
+                  | Some mc =>
+                    if Z.land r avail =? 0 then LErr ran                           (* withdrawn *)
                     else if meth_eqb mc mPW then
                       (* the PASSWORD stub fails locally, nothing on the wire *)
                       client_loop cms rest (Z.land avail (Z.lnot (bit mPW))) ran
@@ -134,6 +137,7 @@ Fixpoint client_loop (cms : list meth) (replies : list reply) (avail : Z) (ran :
                          | XFail => client_loop cms rest (Z.land avail (Z.lnot (bit mc))) (ran ++ [(mc, false)])
                          | XAbort => LErr ran
                          end
+                  end
                 end
        end.
 
